@@ -49,6 +49,7 @@ class Server:
             b = fac(); self.made.append(b); return b
         self.adapter = FileAdapter(compress, path)
         self.app = BptkServer("c19", tracked, external_state_adapter=self.adapter)
+        self.app.logger.disabled = True
         self.client = self.app.test_client()
         self.path = path
     def bptk(self, iid):
@@ -549,7 +550,7 @@ def _run(chk, base):
         cases.append(gen_case(rng, chk.quick))
     chk.cov["exhaustive_cases"] = n_exh
     req, exp, owners = [], [], []
-    first_viol = None
+    viol_by_key = {}
     dist = {"set": 0, "empty": 0, "nobody": 0, "multi": 0, "compressed": 0, "plain": 0, "instances": {1: 0, 2: 0, 3: 0}, "stoptime_reached": 0}
     for ci, case in enumerate(cases):
         q, e, viol = run_case(case, base)
@@ -562,9 +563,8 @@ def _run(chk, base):
         dist["instances"][len(case["instances"])] += 1
         chk.case(json.dumps(case, sort_keys=True), nontrivial=("set" in kinds or "multi" in kinds) and ("empty" in kinds or "nobody" in kinds),
                  sample=case if len(kinds) >= 4 else None)
-        if viol and first_viol is None:
-            first_viol = (case, viol)
-            break                                    # one concrete failing input is what is reported
+        for v in viol:
+            viol_by_key.setdefault(v[0], (case, viol))
     chk.cov["input_distribution"] = dist
     chk.notes["impl_wall_s"] = round(time.time() - chk.t0, 1)
     model = drive("C19", req) if req else []
@@ -573,11 +573,10 @@ def _run(chk, base):
     diff = next((i for i, (a, b) in enumerate(zip(model, exp)) if a != b), None)
     if diff is None and len(model) != len(exp):
         diff = min(len(model), len(exp))
-    if first_viol is not None:
-        case, viol = first_viol
-        key = viol[0][0]
+    first_viol = next(iter(viol_by_key.values()), None)
+    for key, (case, viol) in list(viol_by_key.items())[:6]:
         small = shrink_case(case, key, base)
-        v2 = [v for v in run_case(small, base)[2] if v[0] == key] or viol
+        v2 = [v for v in run_case(small, base)[2] if v[0] == key] or [v for v in viol if v[0] == key]
         chk.add_finding(key, v2[0][1], {"case": small, "violations": [list(v) for v in v2]})
     if not ok:
         chk.add_finding("obligation", f"proof obligations of C19 no longer check: {why}",
